@@ -39,7 +39,8 @@ def complete_file_name(inference_state, module_context, start_leaf, quote, strin
     try:
         listed = sorted(os.scandir(base_path), key=lambda e: e.name)
         # OSError: [Errno 36] File name too long: '...'
-    except (FileNotFoundError, OSError):
+        # ValueError: embedded null byte
+    except (FileNotFoundError, OSError, ValueError):
         return
     quote_ending = get_quote_ending(quote, code_lines, position)
     for entry in listed:
